@@ -7,7 +7,6 @@ package main
 import (
 	"fmt"
 	"math/big"
-	"sort"
 	"strings"
 	"time"
 
@@ -289,16 +288,21 @@ func (w *World) projEnt(ctx sdk.Context) J {
 	if err != nil {
 		panic(err)
 	}
-	wl := []string{}
+	wl := J{}
+	for _, n := range w.Names {
+		wl[n] = false
+	}
+	wlExtra := int64(0)
 	for _, ad := range wlr.Addresses {
-		wl = append(wl, w.nameOf(ad))
+		n := w.nameOf(ad)
+		if contains(w.Names, n) {
+			wl[n] = true
+		} else {
+			wlExtra++
+		}
 	}
-	sort.Strings(wl)
-	wlj := []interface{}{}
-	for _, n := range wl {
-		wlj = append(wlj, n)
-	}
-	e["wl"] = wlj
+	e["wl"] = wl
+	e["wlExtra"] = wlExtra
 	locked, spent := J{}, J{}
 	lockedDenOk := true
 	for _, n := range w.Names {
@@ -487,7 +491,16 @@ func decFrac(d sdk.Dec) (int64, int64) {
 	}
 	m := d.MulInt64(1000000)
 	if m.IsInteger() {
-		return m.TruncateInt64(), 1000000
+		n, q := m.TruncateInt64(), int64(1000000)
+		for _, p := range []int64{2, 5} {
+			for n%p == 0 && q%p == 0 && n != 0 {
+				n, q = n/p, q/p
+			}
+		}
+		if n == 0 {
+			q = 1
+		}
+		return n, q
 	}
 	return -2, 1
 }
